@@ -309,6 +309,7 @@ func minimize(sig string, cs []byte) []byte {
 		}
 		return false
 	}
+	fails = ev.Bounded(fails)
 	if !fails(c.H) {
 		return nil
 	}
